@@ -28,6 +28,15 @@ CHECKS = {
              'ok(v)/err/unspecified with the Dec operator, model-checks DecodedIsValid and StrictRefinesLenient, and the harness '
              'requires the real decoder to return exactly v, or raise ValidationError, and never any other exception.',
         ref='3.5, 4 (C06), Appendix B'),
+    'C07': dict(
+        technique='TLA+ spec StoneEvolveMC (edit actions producing version B; View/Lossy/Lift formalise docs/evolve_spec.rst) model-checked by TLC; every state replayed with two generated packages',
+        text='TLC explores every history of compatible edits (quick: all 78 one-edit histories; thorough: all two-edit histories) applied at '
+             'every site of a 12-type spec, every root type, boundary-biased and fully-populated values of the sender version, both '
+             'directions, strict and lenient, and checks Forward (lenient A-decoding of a B-message = the A-view), StrictExact (strict '
+             'A-decoding rejects exactly the lossy messages), Backward (B-decoding of an A-message = the same value, except through a tag '
+             'changed from Void to a non-nullable type) against the wire rules of StoneWire; each state is replayed: version-B classes '
+             'encode, version-A classes decode (and vice versa) and the projected result must equal the predicted view / rejection.',
+        ref='3.6, 4 (C07)'),
     'C08': dict(
         technique='TLA+ spec StoneRuntimeMC (Accepts/Norm reference predicate + attribute get/set/delete machine) explored by TLC; every transition replayed on generated classes',
         text='TLC enumerates every (declared type of ~110: each numeric primitive with unset/extreme/extreme+-1/small bounds, strings with '
